@@ -567,13 +567,18 @@ def check_digest(ctx):
         return
     inst = 'compute_digest'
     updates = [(bb, t) for bb, t in B.calls() if any(n.endswith('Update::update') or n.endswith('::update') for n in callee_names(t))]
+    # the one-shot form `Md5::digest(data)` is new + update(data) + finalize
+    oneshot = [(bb, t) for bb, t in B.calls() if any(n.endswith('Digest::digest') for n in callee_names(t)) and t['args']]
+    if len(updates) == 0 and len(oneshot) == 1:
+        bb_, t_ = oneshot[0]
+        updates = [(bb_, dict(t_, args=[None, t_['args'][0]], _oneshot=True))]
     if len(updates) == 0:
         ctx.bad('C04.2-digest-shape', inst, 'no hasher update call found', ctx.where(B), key='SHAPE:compute_digest:no-update')
         return
     # hasher must be Md5
     md5 = True
     for bb, t in updates:
-        ty = root_ty(B, t['args'][0])
+        ty = (str(t.get('ga')) + str((t.get('f') or {}).get('d'))) if t.get('_oneshot') else root_ty(B, t['args'][0])
         if 'md5' not in ty.lower():
             md5 = False
     if not md5:
@@ -822,7 +827,7 @@ def check_reader(ctx, path, row, rule, armed):
             if t['k'] == 'call' and prim_of(t) and prim_of(t)[0] == 'r':
                 first = (bb, t)
                 break
-        oks = [bb for bb, j, st in B.stmts() if st['k'] == '=' and st['pl']['l'] == 0 and st['rv']['k'] == 'agg' and st['rv'].get('var') == 'Ok']
+        oks = [bb for bb, j, st in B.stmts() if st['k'] == '=' and B.is_ret_slot(st['pl']['l']) and st['rv']['k'] == 'agg' and st['rv'].get('var') == 'Ok']
         if first and oks:
             c = ('call', callee_of(first[1])[1] or callee_of(first[1])[0], first[0])
             f = R.facts_at(oks[0]).get(c)
